@@ -1,3 +1,4 @@
+import Norad.Props.C08C13
 import Norad.Props.C08
 #print axioms C08.refusal_has_no_effects
 #print axioms C08.effects_only_after_validation
@@ -10,3 +11,5 @@ import Norad.Props.C08
 #print axioms C08.store_error_detected_before_wipe
 #print axioms C08.inplace_save_keeps_store_files
 #print axioms C08.inplace_save_without_step5_counterexample
+#print axioms C08.refused_save_leaves_fs_fontinfo
+#print axioms C08.valid_info_is_serialisable
